@@ -174,6 +174,8 @@ def check_C12(rep, known):
     rep.add_tlc(st)
     outs = engine.pool_map('stages', 'replay', recs)
     engine.process_results(rep, recs, outs, [r'C12\.'], known)
+    import stages as _st
+    engine.process_results(rep, [{'sc': {'kind': 'clone-guess'}}], [{'results': _st.clone_guess(), 'error': None}], [r'C12\.'], known)
 
 
 def check_C17(rep, known):
